@@ -971,6 +971,12 @@ func checkC10(w *World) {
 					isEnd = ex
 				}
 			}
+			if es := storeEventSource(fn); es != nil && len(es.pulls) > 1 {
+				if pull != es.pulls[0] {
+					return // several Pull sites feed one loop: judged once, with the merged end flag
+				}
+				isEnd = es.isEnd
+			}
 			if isEnd == nil {
 				return
 			}
@@ -1104,6 +1110,20 @@ func checkC10(w *World) {
 				}
 			}
 		}
+		startB, startI := pull.Block(), instrIndex(pull)+1
+		isPull := func(c *ssa.Call) bool { return c == pull }
+		if es := storeEventSource(fn); es != nil && len(es.pulls) > 1 {
+			isEnd, errV = es.isEnd, es.err
+			startB, startI = es.header, es.start
+			isPull = func(c *ssa.Call) bool {
+				for _, p := range es.pulls {
+					if p == c {
+						return true
+					}
+				}
+				return false
+			}
+		}
 		creates := func(c *ssa.Call) bool {
 			sc := staticCallee(c)
 			if sc == nil {
@@ -1134,7 +1154,7 @@ func checkC10(w *World) {
 					if creates(x) {
 						return
 					}
-					if x == pull || staticCallee(x) == fn {
+					if isPull(x) || staticCallee(x) == fn {
 						dropped = w.pos(x.Pos())
 						return
 					}
@@ -1168,7 +1188,7 @@ func checkC10(w *World) {
 				}
 			}
 		}
-		walk(pull.Block(), instrIndex(pull)+1)
+		walk(startB, startI)
 		w.check(P, "R10.8", "every event becomes a node in "+fn.Name(), pull.Pos(), dropped == "", "a path reaches the next event at "+orNone(dropped)+" without constructing a cursor for the current one")
 	}
 	w.floor(P, "R10.8", 1)
